@@ -75,6 +75,36 @@ impl Interp {
         Ok(i)
     }
 
+    /// Continue from a module produced by an earlier history (`prev` is the finished interpreter
+    /// of that history): the model is the module itself, fresh ids start at its header bound.
+    pub fn continue_from(prev: Interp, mut m: dr::Module, bound_override: Option<u32>) -> Result<Interp, Fail> {
+        // an inaccurate header bound (as module_ref() snapshots have): fresh ids still start there
+        if let (Some(b), Some(h)) = (bound_override, m.header.as_mut()) {
+            h.bound = b;
+        }
+        let bound = m.header.as_ref().map(|h| h.bound).unwrap_or(0);
+        let model = m.clone();
+        let b = no_panic("Builder::new_from_module", || Builder::new_from_module(m))?;
+        let mut i = Interp::new();
+        i.b = Some(b);
+        i.model = model;
+        i.lo = bound;
+        i.start = bound;
+        i.env = prev.env;
+        if bound_override.is_some() {
+            // "exceeds every allocated id" speaks of the ids this builder allocates
+            i.env.ids.clear();
+        }
+        i.log = prev.log;
+        i.log.push(format!("module(); new_from_module(bound={})", bound));
+        let (f, bl) = i.selection();
+        if f.is_some() || bl.is_some() {
+            return Err(i.wrap(fail("selection-after", "new_from_module", format!("a builder continued from a module starts with selection {:?}/{:?}", f, bl))));
+        }
+        i.compare_module("new_from_module")?;
+        Ok(i)
+    }
+
     pub fn render(&self) -> String {
         self.log.join("\n")
     }
@@ -858,6 +888,80 @@ fn sub_c13_histories(input: &[u8], st: &mut Stats) -> R {
     Ok(())
 }
 
+/// two-phase histories: build a module, take it with module(), continue it with
+/// new_from_module: fresh ids start at the header bound, implicit type requests are
+/// deduplicated against the declarations already in the module
+fn sub_c13_continued(input: &[u8], st: &mut Stats) -> R {
+    let mut cs = Cs::new(input);
+    let p = pools();
+    let mut it = Interp::new();
+    it.env.small = true;
+    let phase = |cs: &mut Cs, it: &mut Interp, n: usize| -> R {
+        for _ in 0..n {
+            match cs.below(16) {
+                0..=6 => {
+                    let names = ["type_void", "type_bool", "type_int", "type_float", "type_vector", "type_pointer", "type_int_id", "type_void_id", "type_pointer", "type_function", "type_struct", "type_array"];
+                    let mm = method(names[cs.below(names.len())]);
+                    it.call(cs, mm)?
+                }
+                7 | 8 => {
+                    let mm = pick(cs, &p.types);
+                    it.call(cs, mm)?
+                }
+                9 => {
+                    it.alloc_id()?;
+                }
+                10 => {
+                    let names = ["constant_bit32", "constant_true", "constant_null", "spec_constant_bit32"];
+                    let mm = method(names[cs.below(names.len())]);
+                    it.call(cs, mm)?
+                }
+                11 => it.call(cs, method("begin_function"))?,
+                12 => it.call(cs, method("begin_block"))?,
+                13 => {
+                    let mm = pick(cs, &p.block);
+                    it.call(cs, mm)?
+                }
+                14 => {
+                    let mm = pick(cs, &p.term);
+                    it.call(cs, mm)?
+                }
+                _ => it.call(cs, method("end_function"))?,
+            }
+        }
+        Ok(())
+    };
+    let n1 = cs.below(20);
+    phase(&mut cs, &mut it, n1)?;
+    let rounds = 1 + cs.below(2);
+    let mut repeated_after = 0;
+    for _ in 0..rounds {
+        let (m, prev) = it.finish()?;
+        let before = prev.repeated_type_requests;
+        let over = match cs.below(6) {
+            0 => Some(0),
+            1 => Some(1 + cs.below(12) as u32),
+            2 => m.header.as_ref().map(|h| h.bound.saturating_sub(1 + cs.below(3) as u32)),
+            _ => None,
+        };
+        if over.is_some() {
+            st.count("continued_with_inaccurate_bound");
+        }
+        it = Interp::continue_from(prev, m, over)?;
+        let n2 = cs.below(20);
+        phase(&mut cs, &mut it, n2)?;
+        repeated_after += it.repeated_type_requests;
+        let _ = before;
+    }
+    let (_m, it) = it.finish()?;
+    st.add("repeated_implicit_type_requests_after_continuing", repeated_after as u64);
+    if repeated_after > 0 {
+        st.nontrivial(hash_str(&it.render()));
+    }
+    st.sample(|| it.render());
+    Ok(())
+}
+
 /// every generated type method: twice implicitly (same arguments), once explicitly
 fn sub_c13_type_sweep(input: &[u8], st: &mut Stats) -> R {
     let i = idx(input) as usize;
@@ -927,12 +1031,14 @@ fn sub_c13_type_sweep(input: &[u8], st: &mut Stats) -> R {
 pub const C13_SUBS: &[Sub] = &[
     Sub { name: "type-sweep", f: sub_c13_type_sweep },
     Sub { name: "histories", f: sub_c13_histories },
+    Sub { name: "continued-histories", f: sub_c13_continued },
 ];
 
 pub fn c13_run(ctx: &Ctx) {
     run_regress(ctx, C13_SUBS);
     drive_enum(ctx, &C13_SUBS[0], pools().types.len() as u64);
     drive_random(ctx, &C13_SUBS[1], ctx.n(30_000, 15_000_000), 1500);
+    drive_random(ctx, &C13_SUBS[2], ctx.n(10_000, 5_000_000), 1500);
     if !ctx.quick() && !ctx.failed() {
         crate::fuzzing::drive_fuzz(ctx, "builder", 200000);
     }
@@ -942,7 +1048,7 @@ pub fn c13_finish(ctx: &Ctx) -> i32 {
     crate::engine::finish(
         ctx,
         Finish {
-            rule: "cases: (a) every generated type method (and type_pointer): requested twice implicitly with equal arguments, once with an explicit id, once more implicitly; (b) histories of 0-50 calls dominated by type requests over a small argument alphabet (so repeats are frequent) with and without explicit ids, interleaved with id(), constants, module-level and block-level calls that fail after reserving an id, optionally continuing from new_from_module with bound 0 / 1 / random / near u32::MAX. Oracle (model R4): fresh ids strictly increasing from 1 / the bound (a failed id-reserving call may skip one id), explicit ids returned unchanged; implicit type request returns the id of an earlier identical declaration and leaves the module unchanged, otherwise appends exactly one declaration with a fresh id; explicit request always appends; final probe = id(), module().header.bound == probe + 1 and > every allocated id. non-trivial = history with >= 1 repeated implicit type request and >= 1 failing id-reserving call (sweep: each type method); distinct = hash of the rendered history.",
+            rule: "cases: (a) every generated type method (and type_pointer): requested twice implicitly with equal arguments, once with an explicit id, once more implicitly; (b) histories of 0-50 calls dominated by type requests over a small argument alphabet (so repeats are frequent) with and without explicit ids, interleaved with id(), constants, module-level and block-level calls that fail after reserving an id, optionally continuing from new_from_module with bound 0 / 1 / random / near u32::MAX. (c) two- and three-phase histories: module() then new_from_module(module) and on, with type requests repeating declarations made before the hand-over. Oracle (model R4): fresh ids strictly increasing from 1 / the bound (a failed id-reserving call may skip one id), explicit ids returned unchanged; implicit type request returns the id of an earlier identical declaration and leaves the module unchanged, otherwise appends exactly one declaration with a fresh id; explicit request always appends; final probe = id(), module().header.bound == probe + 1 and > every allocated id. non-trivial = history with >= 1 repeated implicit type request and >= 1 failing id-reserving call (sweep: each type method); distinct = hash of the rendered history.",
             assumptions: vec!["histories never exhaust 2^32 ids".into()],
             trusted_base: vec!["builder model R4".into(), "generated call sites".into()],
         },
